@@ -165,6 +165,9 @@ def run(ctx):
         rec = b['record']
         short = {k: rec[k] for k in rec if k not in ('atoms', 'patoms', 'batoms')}
         ctx.violation('%s: %s' % (rec['ev'], b['clause']), json.dumps(short, default=tlc._np)[:1200], {'file': b['file'], 'line': b['l']})
+    from .. import umbrella
+    import atomman as _am
+    umbrella.run(ctx, _am, 'C04')      # cross-module histories of spec/Atomman.tla (only the steps this property owns are reported here)
     small = [r_ for r_ in recs if r_['ev'] == 'rotate' and len(r_['atoms']) <= 6 and r_['vol'] > 1]
     if small:
         ctx.sample({'kind': 'C->S rotate record', **small[0]})
